@@ -42,6 +42,12 @@ for d in sorted(glob.glob(f'{V}/seeded/*')):
     c = m['confirmed']
     rows.append(f"| seeded/{n} | {m['property']} | {esc(m['needs_to_manifest'])} | exit {c['demo_exit_without_change']} / {c['demo_exit_with_change']}; tree tests same | {r[1]} quick: {r[0]} | {', '.join('`'+esc(k)+'`' for k in r[2])} |")
 out['SEEDED'] = "\n".join(rows)
+mf = json.load(open(f'{V}/tools/missed_first.json'))
+rows = ["| seeded change first missed | what was added to the check so that it is caught |", "|---|---|"]
+for k in sorted(mf):
+    if not k.startswith('_'):
+        rows.append(f"| seeded/{k} | {esc(mf[k])} |")
+out['STRENGTHENED'] = "\n".join(rows)
 s = open(f'{V}/DESIGN.md').read()
 for k, v in out.items():
     b, e = f"<!-- BEGIN:{k} -->", f"<!-- END:{k} -->"
